@@ -236,6 +236,34 @@ def gen_cases(r, tier, n_random=8):
                     ops += [["map", c1], ["draw", 0, 1000], ["map", c1], ["map", c2], ["map", c2]]
                     pool += [c1, c2]
                 cases.append({"op": "rep", "decl": d, "rep": rep, "seed": r.randrange(10**6), "ops": ops})
+    # offspring that inherited an empty gene list (a symbol only the other parent used) are mutated, several times each, before and
+    # after being mapped: a mutation that lands on the empty list must leave the genotype as it is
+    for d in kin:
+        for rep in ({"kind": "dsge", "max_depth": 3}, {"kind": "dsge", "max_depth": 5}):
+            for _ in range(2 if not big else 6):
+                ops = [["create"], ["create"], ["create"], ["map", 0], ["map", 1], ["map", 2]]
+                size = 3
+                for a, b in ((0, 1), (1, 2), (0, 2)):
+                    ops.append(["cross", a, b])
+                    c1, c2 = size, size + 1
+                    size += 2
+                    for c in (c1, c2):
+                        ops += [["mutate", c], ["mutate", c], ["mutate", c]]
+                        size += 3
+                    ops += [["map", c1], ["mutate", c1], ["mutate", c1]]
+                    size += 2
+                cases.append({"op": "rep", "decl": d, "rep": rep, "seed": r.randrange(10**6), "ops": ops})
+    # short stack genotypes (the crossover cut is drawn from 0..255 whatever the length): creation, mutation and crossover only, since the
+    # stack mapping need not terminate on so few codons
+    for gl in (1, 2, 5, 16, 100, 255, 256):
+        for _ in range(2 if not big else 5):
+            ops, size = [["create"], ["create"], ["create"]], 3
+            for _i in range(8 if gl > 16 else 14):
+                if r.random() < 0.25:
+                    ops.append(["mutate", r.randrange(size)]); size += 1
+                else:
+                    ops.append(["cross", r.randrange(size), r.randrange(size)]); size += 2
+            cases.append({"op": "rep", "decl": fam[0], "rep": {"kind": "stack", "gene_length": gl}, "seed": r.randrange(10**6), "ops": ops})
     # the genotype a representation object maps FIRST is mapped again later (decider state must not carry over between mappings);
     # concrete start symbol, so that the first production choice is not made at the root
     for rep in ({"kind": "ge", "decider": ["pi", 4], "gene_length": 8}, {"kind": "sge", "decider": ["pi", 4], "gene_length": 4},
